@@ -52,7 +52,48 @@ func genText(c *core.Chooser, max int, o GenOpt) []byte {
 	if o.TextOnly || c.Prob(1, 2) {
 		alpha = "print"
 	}
-	return c.Blob(n, alpha)
+	b := c.Blob(n, alpha)
+	// edge shapes chance would not produce: blanks at the ends, nothing but blanks, digits only
+	if n > 0 && o.Shape == 0 {
+		switch c.Pick(40, 1, 1, 1, 1) {
+		case 1:
+			for i := range b {
+				b[i] = ' '
+			}
+		case 2:
+			b[n-1] = ' '
+		case 3:
+			b[0] = ' '
+		case 4:
+			for i := range b {
+				b[i] = '0' + b[i]%10
+			}
+		}
+	}
+	return b
+}
+
+// StdTags: the optional-parameter tags SMPP 3.4 defines (section 5.3.2); parsers may treat some of them specially.
+var StdTags = []uint16{0x0005, 0x0006, 0x0007, 0x0008, 0x000d, 0x000e, 0x000f, 0x0010, 0x0017, 0x0019, 0x001d, 0x001e, 0x0030,
+	0x0201, 0x0202, 0x0203, 0x0204, 0x0205, 0x020a, 0x020b, 0x020c, 0x020d, 0x020e, 0x020f, 0x0210, 0x0302, 0x0303, 0x0304, 0x0381,
+	0x0420, 0x0421, 0x0422, 0x0423, 0x0424, 0x0425, 0x0426, 0x0427, 0x0501, 0x1201, 0x1203, 0x1204, 0x130c, 0x1380, 0x1383}
+
+// EdgeValue gives an optional value an ending / content a parser might treat specially.
+func EdgeValue(c *core.Chooser, v []byte) []byte {
+	if len(v) == 0 {
+		return v
+	}
+	switch c.Pick(12, 2, 1, 1) {
+	case 1:
+		v[len(v)-1] = 0
+	case 2:
+		for i := range v {
+			v[i] = 0
+		}
+	case 3:
+		v[0] = 0
+	}
+	return v
 }
 
 // Gen draws a well-formed assignment for p: text without NUL and no longer
@@ -129,6 +170,20 @@ func Gen(c *core.Chooser, p *PDU, o GenOpt) *Msg {
 				v.B = c.Blob(n, "nonul")
 			} else {
 				v.B = c.Blob(n, "any")
+				// a body that is a part of a concatenated message (or merely begins like one)
+				if n >= 7 && c.Prob(1, 8) {
+					tot := 1 + c.Intn(255)
+					switch c.Pick(3, 2, 1, 1) {
+					case 0:
+						copy(v.B, []byte{5, 0, 3, byte(c.Intn(256)), byte(tot), byte(1 + c.Intn(tot))})
+					case 1:
+						copy(v.B, []byte{6, 8, 4, byte(c.Intn(256)), byte(c.Intn(256)), byte(tot), byte(1 + c.Intn(tot))})
+					case 2:
+						copy(v.B, []byte{5, 0, 3, byte(c.Intn(256)), byte(c.Intn(3)), byte(c.Intn(256))}) // counters not plausible
+					default:
+						copy(v.B, []byte{5, 0, 3})
+					}
+				}
 			}
 			m.V(f.Ref).U = uint64(n)
 		case KRep:
@@ -162,11 +217,13 @@ func Gen(c *core.Chooser, p *PDU, o GenOpt) *Msg {
 			used := map[uint16]bool{}
 			for i := 0; i < n; i++ {
 				var tag uint16
-				switch c.Pick(3, 2, 1) {
+				switch c.Pick(3, 2, 1, 3) {
 				case 0:
 					tag = uint16(1 + c.Intn(18))
 				case 1:
 					tag = []uint16{0, 0x0005, 0x001e, 0x0204, 0x020c, 0x0424, 0x0427, 0x1400, 0x3fff, 0xffff}[c.Intn(10)]
+				case 3:
+					tag = StdTags[c.Intn(len(StdTags))]
 				default:
 					tag = uint16(c.Uint64())
 				}
@@ -179,9 +236,53 @@ func Gen(c *core.Chooser, p *PDU, o GenOpt) *Msg {
 					max = 65531
 				}
 				l := c.Size(max, 0, 1, 2, 255, 256, 65531)
-				v.T = append(v.T, Triplet{tag, c.Blob(l, "any")})
+				v.T = append(v.T, Triplet{tag, EdgeValue(c, c.Blob(l, "any"))})
 			}
 		}
 	}
+	if o.Shape == 0 && c.Prob(1, 8) {
+		coincide(c, m)
+	}
 	return m
+}
+
+// coincide makes one octet of a text field equal to something it has no business to equal: a length or count of the
+// same PDU (plus or minus a small offset), the low octet of the image length, a header magic, a small integer; the
+// octet before it becomes a small integer half of the time. Layout heuristics keyed on such octets show up.
+func coincide(c *core.Chooser, m *Msg) {
+	var texts []*Val
+	var nums []uint64
+	for _, f := range m.PDU.Fields {
+		v := m.F[f.Name]
+		switch f.Kind {
+		case KStr, KCStr:
+			if len(v.B) >= 2 && v.Raw == nil {
+				texts = append(texts, v)
+			}
+		case KU8, KU16, KU32:
+			nums = append(nums, v.U)
+		case KOctets:
+			nums = append(nums, uint64(len(v.B)))
+		}
+	}
+	if len(texts) == 0 {
+		return
+	}
+	if img, _ := Build(m); len(img) > 0 {
+		nums = append(nums, uint64(len(img)), uint64(len(img)-m.PDU.Proto.HeaderLen()))
+	}
+	nums = append(nums, 1, 3, 5, 6)
+	v := texts[c.Intn(len(texts))]
+	pos := c.Intn(len(v.B))
+	if c.Prob(1, 2) {
+		pos = len(v.B) - 1 - c.Intn(min(len(v.B), 12)) // towards the end of long values: deep inside the slot
+	}
+	x := byte(int(nums[c.Intn(len(nums))]) + c.Intn(81) - 40)
+	if x == 0 {
+		x = 1
+	}
+	v.B[pos] = x
+	if pos > 0 && c.Bool() {
+		v.B[pos-1] = byte(1 + c.Intn(2))
+	}
 }
